@@ -73,9 +73,34 @@ package blake2b
 //@ ensures (sameobj(result, sum) && off(result) == off(sum)) || newobj(result)
 //@ ensures d.size == old(d.size) && d.offset == old(d.offset)
 
+//@ pred be64(b, o) = b[o]*72057594037927936 + b[o+1]*281474976710656 + b[o+2]*1099511627776 + b[o+3]*4294967296 + b[o+4]*16777216 + b[o+5]*65536 + b[o+6]*256 + b[o+7]
+
+// w64(b, o, x): the eight bytes of b from o are x, most significant byte first
+//@ pred w64(b, o, x) = b[o] == (x / 72057594037927936) % 256 && b[o+1] == (x / 281474976710656) % 256 && b[o+2] == (x / 1099511627776) % 256 && b[o+3] == (x / 4294967296) % 256 && b[o+4] == (x / 16777216) % 256 && b[o+5] == (x / 65536) % 256 && b[o+6] == (x / 256) % 256 && b[o+7] == x % 256
+
+//@ func appendUint64
+//@ props C07
+//@ modifies b[len(b):len(b)+8]
+//@ ensures len(result) == len(b) + 8 && w64(result, len(b), x) && forall(i, 0, len(b), result[i] == old(b[i]))
+//@ ensures implies(cap(b) >= len(b) + 8, sameobj(result, b) && off(result) == off(b) && cap(result) == cap(b)) && implies(cap(b) < len(b) + 8, newobj(result))
+
+// MarshalBinary writes magic | h[0..7] | c[0..1] (big-endian 64-bit words) | size | block | offset: 213 bytes that
+// UnmarshalBinary (below) reads back field by field
+//@ func (*digest).MarshalBinary
+//@ props C07
+//@ requires dinv(d)
+//@ ensures iff(result1 != nil, d.keyLen != 0) && implies(result1 != nil, result0 == nil)
+//@ ensures implies(result1 == nil, len(result0) == 213 && result0[0] == 'b' && result0[1] == '2' && result0[2] == 'b' && result0[83] == d.size && result0[212] == d.offset)
+//@ ensures implies(result1 == nil, forall(i, 0, 8, w64(result0, 3 + 8*i, d.h[i])) && w64(result0, 67, d.c[0]) && w64(result0, 75, d.c[1]))
+//@ ensures implies(result1 == nil, forall(i, 0, 128, result0[84 + i] == d.block[i]))
+//@ loop 1 invariant 0 <= i && i <= 8 && len(b) == 3 + 8*i && cap(b) == 213 && newobj(b) && b[0] == 'b' && b[1] == '2' && b[2] == 'b'
+//@ loop 1 invariant forall(k, 0, i, w64(b, 3 + 8*k, d.h[k])) && onlyobjs(b)
+//@ canary ensures result1 == nil
+
 //@ func (*digest).UnmarshalBinary
 //@ props C07
 //@ modifies d.*
+//@ ensures implies(result == nil, forall(i, 0, 8, d.h[i] == be64(b, 3 + 8*i)) && d.c[0] == be64(b, 67) && d.c[1] == be64(b, 75))
 //@ ensures implies(result == nil, len(b) == 213 && b[0] == 'b' && b[1] == '2' && b[2] == 'b')
 //@ ensures implies(result == nil, d.size == b[83] && d.offset == b[212] && d.keyLen == old(d.keyLen))
 //@ ensures implies(result == nil, forall(i, 0, 128, d.block[i] == b[84+i]))
